@@ -86,7 +86,7 @@ def cmd_run(ident, props):
     try:
         for p in props:
             t0 = time.time()
-            rc, out = sh([os.path.join(ROOT, "check"), p, "--tier", "quick"], cwd=ROOT, env=dict(os.environ))
+            rc, out = sh([os.path.join(ROOT, "check"), p, "--tier", "quick"] + (["--seed", os.environ["SEEDED_SEED"]] if os.environ.get("SEEDED_SEED") else []), cwd=ROOT, env=dict(os.environ))
             lines = [l for l in out.split("\n") if l.startswith("VIOLATION") or "tier=" in l]
             res[p] = dict(exit=rc, violation=any(l.startswith("VIOLATION") for l in lines),
                           no_failing_input_found=any("no-failing-input-found" in l for l in lines),
